@@ -248,6 +248,13 @@ func (m *Method) compileType() error {
 	}
 
 	if m.Channel != nil {
+		if in := m.Channel.In; in != nil && in.Kind != KindMessage {
+			return fmt.Errorf("invalid channel in, must be a message, got %q instead", in.Kind)
+		}
+		if out := m.Channel.Out; out != nil && out.Kind != KindMessage {
+			return fmt.Errorf("invalid channel out, must be a message, got %q instead", out.Kind)
+		}
+
 		switch {
 		case m.Oneway:
 			return fmt.Errorf("method with channel cannot be oneway")
